@@ -47,6 +47,9 @@ def instances(tier):
                     out.append({"kind": "extra", "gen": g, "acs": n, "zpa": zp, "variant": v})
         out.append({"kind": "timing", "gen": g, "acs": 1, "zpa": 2, "variant": "new" if g == 4 else "std"})
     out.append({"kind": "bitmap", "gen": 4, "acs": 2, "zpa": 2, "variant": "new"})
+    for g in (4, 5):
+        for v in (["new", "old"] if g == 4 else ["std"]):
+            out.append({"kind": "names", "gen": g, "acs": 1 if v == "old" else 2, "zpa": 2, "variant": v})
     out.append({"kind": "zero_zones", "gen": 5, "acs": 1})
     out.append({"kind": "zero_zones", "gen": 5, "acs": 2})
     out.append({"kind": "uneven", "gen": 5})
@@ -84,7 +87,11 @@ def _check_model(ctx, rig, inst, detail):
     at = rig.at
     got = {a.ac_id: sorted(z.zone_id for z in a.zones) for a in at.air_conditioners}
     exp = _expected_partition(inst)
-    names_ok = all(z.name == inst.zones[z.zone_id] for a in at.air_conditioners for z in a.zones)
+    from sx.values import Utf8Str
+
+    def nm(x):
+        return x if isinstance(x, str) else Utf8Str(list(x))
+    names_ok = sym_and(*[z.name == nm(inst.zones[z.zone_id]) for a in at.air_conditioners for z in a.zones])
     ac_names_ok = all(a.name == [x for x in inst.acs if x["number"] == a.ac_id][0]["name"] for a in at.air_conditioners)
     ctx.check(got == exp and names_ok and ac_names_ok, "success.model", detail=dict(detail, got=got, expected=exp))
 
@@ -149,6 +156,20 @@ def run(ctx, p):
         d = ctx.real("d", 0, 7)
         delta = ctx.real("delta", 0, 1.2)
         ctx.assume(d + delta * 6 != 5)
+    elif kind == "names":
+        # unusual but legal names of a zone that belongs to an AC: empty, free two-byte (any valid UTF-8 without NUL: blanks,
+        # control characters, one two-byte character), full field width without terminator (AT4: 8 bytes)
+        which = ctx.choice("name_kind", 3)
+        if which == 0:
+            inst.zones[1] = ""
+        elif which == 1:
+            from sx.utf8 import utf8_valid
+            nb = [ctx.byte("n0"), ctx.byte("n1")]
+            ctx.assume(utf8_valid(nb))
+            ctx.assume(sym_and(nb[0] != 0, nb[1] != 0))
+            inst.zones[1] = nb
+        else:
+            inst.zones[1] = "ABCDEFGH" if p["gen"] == 4 else "ABCDEFGHIJKLMNOPQRSTUVWX"
     elif kind == "bitmap":
         # free 4-bit group bitmaps for both ACs (groups 0..3 exist)
         b0 = ctx.bits("gb0", 4)
